@@ -4,7 +4,7 @@ import json, os
 V = os.path.dirname(os.path.dirname(os.path.abspath(__file__)))
 TECH = 'bounded symbolic execution of the crate\'s rustc MIR (own executor "mirsym"), z3 QF_BV decides every branch and assertion; counterexamples replayed natively'
 CHECKS = {
- 'C01': ('one inductive step from every well-formed tree over the universe (MemoryFS, AltrootFS over it) plus overlay histories over 2-3 layers against the union-tree contract: every primitive, observer and composite on every path, also with solver-chosen names; outcome vs contract, exact post-tree byte for byte by solver query', '§5 C01'),
+ 'C01': ('one inductive step from every well-formed tree over the universe (MemoryFS, AltrootFS over it) plus overlay histories over 2-3 layers (layers as roots or as sub-directories of one filesystem) against the union-tree contract, right-typed copy/move transfers, and 4-call histories on one MemoryFS/AltrootFS (state carried between calls): every primitive, observer and composite on every path, also with solver-chosen names; outcome vs contract, exact post-tree byte for byte by solver query', '§5 C01'),
  'C03': ('one-step exploration on the unrestricted domain (wrong-type calls, composites, root) plus overlay histories (removals, then-parent removals, *_wo and dotted sibling names, solver-chosen names) and copy/move transfers with right and wrong source types: the post-state observed through the real observers must be a well-formed tree', '§5 C03'),
  'C04': ('write sessions (create/append x write/seek/flush with symbolic bytes and 64-bit offsets) against a reference growable cursor; fresh reads with several buffer sizes and header+read_to_end, metadata len, copy/move and independence of a copy from its source; MemoryFS, AltrootFS, OverlayFS copy-up, PhysicalFS@OSM', '§5 C04'),
  'C05': ('observer-consistency monitor (exists/metadata/is_file/is_dir/read_dir/open/walk_dir) on every post-state of the one-step, overlay and transfer explorations (also with solver-chosen names), under three hash-iteration orders', '§5 C05'),
@@ -15,13 +15,13 @@ CHECKS = {
  'C10': ('overlay histories starting with removals: removed entries and descendants stay absent, re-created entries are fresh, bookkeeping never listed; includes *_wo sibling names and solver-chosen names; handles flushed after removal', '§5 C10'),
  'C11': ("copy_file/move_file/copy_dir/move_dir between instance pairs (fast paths and generic fallback) from every source tree x destination situation incl. a sibling that shares the source's name prefix and solver-chosen child names; create_dir_all/remove_dir_all one-step and through overlays over nested lower trees; transfers inside one overlay with pre-populated lower layers, PhysicalFS@OSM pairs, same-text destinations between instances", '§5 C11'),
  'C12': ('error-path monitor over the one-step, overlay and transfer explorations and under one injected underlying failure at every call position: VfsError.path must be the call path, its destination or an ancestor/descendant in the caller namespace, never the placeholder; kinds per contract', '§5 C12'),
- 'C13': ('every explored path that ends in a panic (failed MIR assert, modelled library panic, explicit panic!) or self-deadlock is a counterexample; one-step incl. solver-chosen (multi-byte) names, reader scripts with any 64-bit offset (dev and release arithmetic), writer sessions, handles after removal, overlay histories, PhysicalFS@OSM over hostile directory content (non-UTF-8 names, replayed on a real directory), two-thread schedules on one MemoryFS, stepwise walks and reader kernels of the async port', '§5 C13'),
+ 'C13': ('every explored path that ends in a panic (failed MIR assert, modelled library panic, explicit panic!) or self-deadlock is a counterexample; one-step incl. solver-chosen (multi-byte) names, reader scripts with any 64-bit offset (dev and release arithmetic), writer sessions, handles after removal, overlay histories, PhysicalFS@OSM over hostile directory content (non-UTF-8 names, unix sockets, dangling symbolic links; replayed on a real directory), an altroot without its directory, the path kernels on symbolic strings, two-thread schedules on one MemoryFS, stepwise walks and reader kernels of the async port', '§5 C13'),
  'C14': ('reader scripts (read, seek, read_to_end) in lock-step with a reference cursor (symbolic 64-bit offsets); writer sessions against a reference growable cursor (MemoryFS and adapters; create handles of PhysicalFS@OSM)', '§5 C14'),
- 'C02': ('lock-step differential: the same call from the same tree on the real MemoryFS MIR and on the real PhysicalFS MIR over an OS contract model of std::fs (validated against the real kernel by the native selftest in every run); success/failure, not-found/exists classes, data and full snapshot compared', '§5 C02'),
+ 'C02': ('lock-step differential: the same call from the same tree on the real MemoryFS MIR and on the real PhysicalFS MIR over an OS contract model of std::fs (validated against the real kernel by the native selftest in every run); success/failure, not-found/exists classes, data and full snapshot compared; held create/append handles, copy-then-write independence and short identical histories (state carried between calls)', '§5 C02'),
  'C15': ('the async API against the sync API in lock-step on the lowered-coroutine MIR: AsyncMemoryFS/AsyncAltrootFS/AsyncOverlayFS through AsyncVfsPath vs their sync twins for every call from every well-formed tree (outcome, error kind and path, data, full snapshot), walk_dir consumed stepwise with a removal in between (stream vs iterator), the hand-written reader kernels on symbolic scripts; external futures return Pending 0/1/2 times; AsyncPhysicalFS is outside', '§5 C15'),
  'C16': ('2 threads x 1 call (thorough: 2x2, 3x1) on overlapping paths of one MemoryFS (concrete and solver-chosen names): every interleaving at lock-acquisition granularity explored on the real MIR; results and final snapshot must equal a sequential order (solver compares bytes); deadlock incl. recursive read lock; schedules replayed natively through the cfg hook', '§5 C16'),
  'C17': ('concurrent create_dir_all on overlapping paths from every set of pre-existing prefixes (concrete and solver-chosen component names): every interleaving (MemoryFS) / preemption-bounded interleavings (OverlayFS, AltrootFS); all calls Ok and all prefixes directories', '§5 C17'),
- 'C18': ('RustEmbed replaced by a model over every subset of candidate embedded files with symbolic bytes; real EmbeddedFS::new and trait methods through VfsPath; all observers vs the implied tree, all mutators refused and nothing changed; plus a probe whose path is a solver variable (any canonical path of 2..8 bytes): no phantom and no missing entry', '§5 C18'),
+ 'C18': ('RustEmbed replaced by a model over every subset of candidate embedded files with symbolic bytes; real EmbeddedFS::new and trait methods through VfsPath; all observers vs the implied tree, all mutators refused and nothing changed; two embedded folders (two RustEmbed types) in one process; plus a probe whose path is a solver variable (any canonical path of 2..8 bytes): no phantom and no missing entry', '§5 C18'),
  'C19': ('setter sequences with symbolic instants on files, directories and filesystem roots (MemoryFS, PhysicalFS@OSM, altroot/overlay over them): the set field round-trips, other fields/length/type/bytes unchanged, append preserves creation time', '§5 C19'),
  'C20': ('fault switch on every dyn FileSystem dispatch to an underlying filesystem: for each operation (adapter primitives, composites incl. copy/move, walk_dir, read_to_string; also after removals that leave overlay markers) every call index k fails once; Ok implies full effect and right answer, never a panic, lower layers untouched', '§5 C20'),
 }
